@@ -16,6 +16,7 @@ From Apko Require Import Base.Prelude Model.Caches Spec.CachesSpec Proofs.Caches
 From Apko Require Model.Version Model.Resolver Generated.C08Caches Proofs.ResolveProofs Proofs.ResolveProofs2 Proofs.ResolveInstallIf.
 From Apko Require Import Model.CachesClone Proofs.CachesCloneProofs Proofs.CachesCloneShapes Model.CachesIndex Proofs.CachesIndexProofs.
 From Apko Require Proofs.ResolveInstallIf2.
+From Apko Require Import Model.CachesGrouped Proofs.CachesGroupedProofs.
 From Coq Require Import Permutation.
 Open Scope string_scope. Open Scope list_scope.
 
@@ -58,10 +59,14 @@ Theorem c08_frame_prototypes : forall mk_names mk_iif dq_diff dkey R core,
 Proof. exact cached_prototypes_pristine. Qed.
 Print Assumptions c08_frame_prototypes.
 
-(* HISTORY INDEPENDENCE. For EVERY history and call: the result after the
-   history is the result on an empty store - provided no earlier call with the
-   same disqualification-cache key had a different disqualifyDifference (see
-   c08_dq_cache_key_refuted for why the proviso cannot be dropped). *)
+(* HISTORY INDEPENDENCE, for ANY key function of the disqualification cache. For
+   EVERY history and call: the result after the history is the result on an empty
+   store - provided no earlier call with the same disqualification-cache key had
+   a different disqualifyDifference.  For the key the code uses since fix 3541d7b
+   (the trie path AND the grouping) the proviso holds of every history:
+   c08_grouping_key_compatible, c08_history_independent_every_history below; for
+   the former key (the path alone) it cannot be dropped:
+   c08_dq_cache_concatenation_key_refuted. *)
 Theorem c08_history_independent : forall mk_names mk_iif dq_diff dkey R core,
   CoreWritesOnlyOwned R core -> CoreKeepsLength R core -> CoreReadsThroughHandles R core ->
   forall hist c,
@@ -99,19 +104,68 @@ Theorem c08_frame_hypothesis_not_vacuous : ~ CoreWritesOnlyOwned unit slice_writ
 Proof. exact slice_writer_breaks_frame. Qed.
 Print Assumptions c08_frame_hypothesis_not_vacuous.
 
-(* INSTANCE for the sequential resolver model: after any history a call returns
+(* THE KEY OF THE DISQUALIFICATION CACHE SINCE FIX 3541d7b (was finding C08-F2).
+   grouping_key u archs = the trie path (concatenation of the map's values sorted
+   by Name()) together with the grouping itself, listed by architecture name
+   (Model/CachesGrouped.v: the cache layer of Model/Caches.v with this key function
+   is the trie whose nodes keep one entry per grouping).  Equal keys: the two maps
+   are the same Go map (their listings are permutations of each other), and
+   disqualifyDifference does not depend on the listing: the proviso of
+   c08_history_independent holds of EVERY history and call. *)
+Theorem c08_grouping_key_compatible : forall u,
+  (forall a b, grouping_key u a = grouping_key u b -> dq_key u a = dq_key u b /\ Permutation a b) /\
+  (forall a b, Permutation a b -> dq_difference u a = dq_difference u b) /\
+  (forall hist c, GroupingCompatible (dq_difference u) (grouping_key u) hist c).
+Proof.
+  intros u. split; [|split].
+  - intros a b E. split; [exact (proj1 (grouping_key_inj u a b E)) | exact (grouping_key_perm u a b E)].
+  - exact (dq_difference_perm u).
+  - exact (grouping_compatible_all u).
+Qed.
+Print Assumptions c08_grouping_key_compatible.
+
+(* HISTORY INDEPENDENCE WITHOUT PROVISO (was refuted: C08-F2).  For every universe,
+   every resolver core satisfying the frame hypothesis, EVERY history and call:
+   the result after the history is the result on an empty store. *)
+Theorem c08_history_independent_every_history : forall u mk_names mk_iif R core,
+  CoreWritesOnlyOwned R core -> CoreKeepsLength R core -> CoreReadsThroughHandles R core ->
+  forall hist c,
+    result_after mk_names mk_iif (dq_difference u) (grouping_key u) R core true hist c =
+    result_fresh mk_names mk_iif (dq_difference u) (grouping_key u) R core true c.
+Proof. exact history_independent_grouped. Qed.
+Print Assumptions c08_history_independent_every_history.
+
+(* A REQUEST IS HANDED THE DIFFERENCE OF ITS OWN GROUPING, after every history (the
+   positive form of the former c08_dq_cache_key_refuted) *)
+Theorem c08_dq_handed_own_grouping : forall u mk_names mk_iif R core,
+  CoreWritesOnlyOwned R core -> CoreKeepsLength R core ->
+  forall hist c,
+    dq_handed mk_names mk_iif (dq_difference u) (grouping_key u) R core hist c = dq_difference u (cl_archs c).
+Proof. exact dq_handed_own_grouping. Qed.
+Print Assumptions c08_dq_handed_own_grouping.
+(* the former witnesses: {x:[i0], y:[i1]} and {x:[i0,i1]} still share the trie path,
+   no longer the key; each is handed its own difference in both orders and when
+   the two alternate *)
+Example c08_dq_handed_own_grouping_example :
+  let handed := dq_handed f2_names ex_none (dq_difference f2_universe) (grouping_key f2_universe) _ toy_core in
+  dq_key f2_universe (cl_archs f2_multi) = dq_key f2_universe (cl_archs f2_single) /\
+  grouping_key f2_universe (cl_archs f2_multi) <> grouping_key f2_universe (cl_archs f2_single) /\
+  handed [f2_multi] f2_single = [] /\ handed [f2_single] f2_multi = [(0, 0)] /\
+  handed [f2_multi; f2_single] f2_multi = [(0, 0)] /\ handed [f2_single; f2_multi] f2_single = [].
+Proof. exact f2_fixed. Qed.
+
+(* INSTANCE for the sequential resolver model: after ANY history a call returns
    what Resolver.resolve_with returns for the resolver of the call's own
    indexes, an empty selected and the disqualification set of the call's own
    grouping - whatever the resolution leaves behind in its selected / dq maps
-   ([fsel], [fdq]). *)
+   ([fsel], [fdq]).  No proviso (it had the grouping proviso until fix 3541d7b). *)
 Theorem c08_history_independent_resolver : forall u fsel fdq hist c,
-  GroupingCompatible (dq_difference u) (dq_key u) hist c ->
-  result_after (mk_names_of u) (mk_iif_of u) (dq_difference u) (dq_key u) _ (resolver_core u fsel fdq) true hist c =
+  result_after (mk_names_of u) (mk_iif_of u) (dq_difference u) (grouping_key u) _ (resolver_core u fsel fdq) true hist c =
   lift_res u (cl_indexes c)
     (Resolver.resolve_with
        (resolver_of_view u (fresh_view (mk_names_of u) (mk_iif_of u) (dq_difference u) c (cl_archs c)))
        (cl_world c) (flat_pids u (cl_indexes c) (dq_difference u (cl_archs c)))).
-Proof. exact resolver_history_independent. Qed.
+Proof. exact resolver_history_independent_grouped. Qed.
 Print Assumptions c08_history_independent_resolver.
 
 (* NON-VACUITY: with the clone removed (`return pr`, `return dq`) the statement
@@ -165,12 +219,14 @@ Theorem c08_dq_handed : forall mk_names mk_iif dq_diff dkey R core,
 Proof. exact dq_handed_spec. Qed.
 Print Assumptions c08_dq_handed.
 
-(* [refuted] C08-F2. The key is the concatenation of all architectures' indexes
-   sorted by pin name: {x:[i0], y:[i1]} and {x:[i0,i1]} share an entry. After
-   the first, the second is handed a set that disqualifies only1 (and fails,
-   where a fresh process succeeds); in the other order the two-architecture
-   call is handed the empty set. Replayed on the real code: corpus/finding/F2. *)
-Theorem c08_dq_cache_key_refuted :
+(* [refuted] NON-VACUITY of "one entry per grouping" (this was finding C08-F2 until fix
+   3541d7b).  With the trie path ALONE as key - the concatenation of all
+   architectures' indexes sorted by pin name - {x:[i0], y:[i1]} and {x:[i0,i1]}
+   share an entry: after the first, the second is handed a set that disqualifies
+   only1 (and fails, where a fresh process succeeds); in the other order the
+   two-architecture call is handed the empty set.  The real code is replayed on
+   these histories in every run (corpus/fixed/F2): a regression is a VIOLATION. *)
+Theorem c08_dq_cache_concatenation_key_refuted :
   let handed := dq_handed f2_names ex_none (dq_difference f2_universe) (dq_key f2_universe) _ toy_core in
   dq_key f2_universe (cl_archs f2_multi) = dq_key f2_universe (cl_archs f2_single) /\
   dq_difference f2_universe (cl_archs f2_multi) = [(0, 0)] /\
@@ -182,7 +238,7 @@ Theorem c08_dq_cache_key_refuted :
   result_after f2_names ex_none (dq_difference f2_universe) (dq_key f2_universe) _ toy_core true [f2_single] f2_multi
     <> result_fresh f2_names ex_none (dq_difference f2_universe) (dq_key f2_universe) _ toy_core true f2_multi.
 Proof. exact dq_cache_key_refuted. Qed.
-Print Assumptions c08_dq_cache_key_refuted.
+Print Assumptions c08_dq_cache_concatenation_key_refuted.
 
 (* ORDER AND MEMBERS ARE DETERMINED (full; was refuted until fix c03e0c0, findings
    C08-F1 and C08-F3).  GetPackageWithDependencies' install_if loop used to
@@ -341,7 +397,19 @@ Print Assumptions c08_install_if_cross_request_refuted.
    indexCache.get records the modification time under the key the parsed result
    is stored under and re-reads when there is no recorded time or the file's time
    is After it; GetRepositoryIndexes has one slot per repository line, goroutine
-   i writes slot i, nil slots are deleted after Wait, the slots are returned. *)
+   i writes slot i, nil slots are deleted after Wait, the slots are returned;
+   a leaf of the disqualification trie keeps one entry per grouping: find returns
+   the entry whose grouping equals the request's map (maps.EqualFunc over
+   slices.Equal), fill appends an entry with a COPY of the grouping (what
+   Model/CachesGrouped.grouping_key transcribes; the former shape reads
+   "find:the-one-set-of-the-node"). *)
+Theorem c08_source_shape_dq_node :
+  C08Caches.dq_cache_node =
+  ["find:entry-with-an-equal-grouping"; "equal:same-architectures-and-the-same-index-objects-in-the-same-order";
+   "fill:appends-an-entry-with-a-copy-of-the-grouping"].
+Proof. reflexivity. Qed.
+Print Assumptions c08_source_shape_dq_node.
+
 Theorem c08_source_shape_keys_and_index_cache :
   C08Caches.resolver_get_key = ["find:the-list-as-given"; "build:the-list-as-given"; "fill:the-list-as-given"] /\
   C08Caches.index_modtimes_keys = ["entry-key"; "entry-key"] /\
@@ -356,8 +424,9 @@ Print Assumptions c08_source_shape_keys_and_index_cache.
    After EVERY history of earlier resolutions a resolution through the cached and
    cloned resolver returns what a resolution through a FRESH resolver returns -
    newPkgResolver and disqualifyDifference in an empty process, no cache, no
-   clone.  (Frame hypothesis on the core as in c08_history_independent; grouping
-   proviso: C08-F2.) *)
+   clone.  (Frame hypothesis on the core as in c08_history_independent; stated for
+   any key function of the disqualification cache, hence with the proviso;
+   c08_clone_fresh_every_history is the instance for the code's key.) *)
 Theorem c08_clone_fresh : forall mk_names mk_iif dq_diff dkey R core,
   CoreWritesOnlyOwned R core -> CoreKeepsLength R core -> CoreReadsThroughHandles R core ->
   forall hist c,
@@ -366,6 +435,14 @@ Theorem c08_clone_fresh : forall mk_names mk_iif dq_diff dkey R core,
     result_direct mk_names mk_iif dq_diff R core c.
 Proof. exact clone_fresh. Qed.
 Print Assumptions c08_clone_fresh.
+(* ... for the key of the code: no proviso *)
+Theorem c08_clone_fresh_every_history : forall u mk_names mk_iif R core,
+  CoreWritesOnlyOwned R core -> CoreKeepsLength R core -> CoreReadsThroughHandles R core ->
+  forall hist c,
+    result_after_g mk_names mk_iif (dq_difference u) (grouping_key u) R core (fun l => l) (clone_by_shape C08Caches.clone_shape) hist c =
+    result_direct mk_names mk_iif (dq_difference u) R core c.
+Proof. exact clone_fresh_grouped. Qed.
+Print Assumptions c08_clone_fresh_every_history.
 (* the hypotheses are satisfiable, and the generalised layer is the layer of c08_history_independent *)
 Example c08_clone_fresh_example :
   (forall s h, clone_by_shape C08Caches.clone_shape s h = clone_resolver s h) /\
